@@ -47,7 +47,7 @@ pub fn exec_profile(id: &str) -> ExecProfile {
         },
         "C18" => ExecProfile {
             name: "exec-block-entry",
-            modes: vec![Mode::BlockEntry, Mode::BlockEntry, Mode::BlockEntry, Mode::BlockEntry, Mode::Before, Mode::BlockExit, Mode::SemanticAfter, Mode::FuncEntry],
+            modes: vec![Mode::BlockEntry, Mode::BlockEntry, Mode::BlockEntry, Mode::BlockEntry, Mode::Before, Mode::After, Mode::After, Mode::BlockExit, Mode::SemanticAfter, Mode::FuncEntry],
             edits: false,
             rich: true,
         },
@@ -83,6 +83,10 @@ fn candidates(info: &FuncInfo, body: &[Ins], mode: Mode) -> Vec<u32> {
             v.extend(info.branches.iter().map(|b| b.idx));
             v.extend(info.unreachables.iter().map(|u| u.0));
             v.extend(info.caught_throws.iter().map(|u| u.0));
+            // construct openers: before = about to execute the opener; after-code of a `block` / `if` opener
+            // sits at the start of the body / then-arm (a `loop` opener's would run on every iteration and
+            // is left out)
+            v.extend(info.constructs.iter().filter(|c| mode == Mode::Before || c.kind != CK::Loop).map(|c| c.opener));
             v
         }
         Mode::BlockEntry | Mode::BlockExit => {
@@ -118,6 +122,7 @@ pub fn gen_exec_scenario(id: &str, run_seed: u64) -> Result<Scenario, String> {
     let n_ops = rng.range(1, 6);
     let n_funcs = base.funcs.len();
     let mut used: Vec<(usize, u32)> = vec![];
+    let mut shared_pool: Vec<(usize, Mode, u32, i32)> = vec![];
     let mut added_probe_imports: Vec<u32> = vec![];
     let mut n_added_funcs = 0u32;
     // one history in four first replaces the host import `helper` by a built body with the same
@@ -227,7 +232,25 @@ pub fn gen_exec_scenario(id: &str, run_seed: u64) -> Result<Scenario, String> {
                 None => continue,
             };
             used.push((fi, instr));
-            let magic = st.probe_magic();
+            // one site in ten shares the probe (same magic, byte-identical body) with an earlier site of this
+            // function made in another mode: such groups are judged by the union of their expected firings
+            let shareable = |m: Mode, i: u32| match m {
+                Mode::Before | Mode::After | Mode::BlockEntry | Mode::BlockExit => true,
+                Mode::SemanticAfter => !info.funcs[fi].branches.iter().any(|b| b.idx == i),
+                _ => false,
+            };
+            let partner: Option<i32> = if shareable(mode, instr) && rng.chance(1, 6) {
+                // preferably a probe that already sits on this very instruction in another mode
+                let same: Vec<i32> = shared_pool.iter().filter(|(f, m, i, _)| *f == fi && *i == instr && *m != mode).map(|x| x.3).collect();
+                let c: Vec<i32> = shared_pool.iter().filter(|(f, m, i, _)| *f == fi && !(*m == mode && *i == instr)).map(|x| x.3).collect();
+                rng.pick_opt(&same).or(rng.pick_opt(&c)).copied()
+            } else {
+                None
+            };
+            let magic = partner.unwrap_or_else(|| st.probe_magic());
+            if shareable(mode, instr) {
+                shared_pool.push((fi, mode, instr, magic));
+            }
             let mut body = probe_body(magic);
             if !added_probe_imports.is_empty() && rng.chance(1, 2) {
                 body[1] = Ins::Call(*rng.pick(&added_probe_imports));
@@ -637,7 +660,83 @@ pub fn judge_exec(id: &str, sc: &Scenario, stats: &mut ExecStats) -> (Judged, Ru
         // ---- timing rules per accepted probe
         let acts_t = activations(&t.trace);
         let acts_o = activations(&o.trace);
+        // probes shared by several sites (same magic): the firings must be exactly the union of what each
+        // site calls for
+        let mut shared_magics: Vec<i32> = vec![];
+        for (k, a) in accepted.iter().enumerate() {
+            if accepted.iter().enumerate().any(|(j, b)| j != k && b.1 == a.1) && !shared_magics.contains(&a.1) {
+                shared_magics.push(a.1);
+            }
+        }
+        for magic in &shared_magics {
+            let mut exp: Vec<usize> = vec![];
+            let mut owners: Vec<(&'static str, String)> = vec![];
+            let mut judgeable = true;
+            for (func, _, mode, instr) in accepted.iter().filter(|a| a.1 == *magic) {
+                let fi = match func.checked_sub(N_HOST) {
+                    Some(k) if (k as usize) < info.funcs.len() => k as usize,
+                    _ => {
+                        judgeable = false;
+                        continue;
+                    }
+                };
+                let c = info.funcs[fi].constructs.iter().find(|c| c.opener == *instr || c.else_idx == Some(*instr));
+                let (kind, pc, owner, site): (u8, u32, &'static str, String) = match mode {
+                    Mode::Before => (crate::interp::V_EXEC, *instr, "C16", "before_after_timing@before".into()),
+                    Mode::After => (crate::interp::V_DONE, *instr, "C16", "before_after_timing@after".into()),
+                    Mode::BlockEntry => (crate::interp::V_ENTER, *instr, "C18", "probe_timing@block_entry:shared_probe".into()),
+                    Mode::BlockExit => match c {
+                        Some(c) => (crate::interp::V_FALL, if c.opener == *instr { c.else_idx.unwrap_or(c.end) } else { c.end }, "C19", "probe_timing@block_exit:shared_probe".into()),
+                        None => {
+                            judgeable = false;
+                            continue;
+                        }
+                    },
+                    Mode::SemanticAfter => match c {
+                        Some(c) if c.kind != CK::Loop => (crate::interp::V_AFTER, c.end, "C20", "probe_timing@semantic_after:shared_probe".into()),
+                        _ => {
+                            judgeable = false;
+                            continue;
+                        }
+                    },
+                    _ => {
+                        judgeable = false;
+                        continue;
+                    }
+                };
+                exp.extend(o.virt.iter().filter(|v| v.1 == kind && v.2 as usize == fi && v.3 == pc).map(|v| v.0));
+                owners.push((owner, site));
+            }
+            if !judgeable {
+                continue;
+            }
+            exp.sort();
+            let p = Ev::Probe(*magic);
+            let mut got = vec![];
+            let mut n = 0usize;
+            for e in &t.trace {
+                if *e == p {
+                    got.push(n);
+                } else if !is_probe(e) {
+                    n += 1;
+                }
+            }
+            if exp != got {
+                for (owner, site) in owners {
+                    let (kind, s) = site.split_once('@').unwrap();
+                    push(
+                        owner,
+                        Mismatch::new(kind, s, format!("a probe shared by several sites fired {} times at original-event positions {:?}; the sites together call for {} firings at {:?}", got.len(), &got[..got.len().min(12)], exp.len(), &exp[..exp.len().min(12)])),
+                        &mut owned,
+                        &mut others,
+                    );
+                }
+            }
+        }
         for (func, magic, mode, instr) in &accepted {
+            if shared_magics.contains(magic) {
+                continue;
+            }
             let fi = match func.checked_sub(N_HOST) {
                 Some(k) if (k as usize) < info.funcs.len() => k as usize,
                 _ => continue,
